@@ -928,17 +928,43 @@ fn net_mutants(base: &[Link], out: &mut Vec<Mutant>) {
 // one case: every path through the real code, op lines, oracle clauses
 // ------------------------------------------------------------------------------------------
 
-fn all_finite(v: &Value) -> bool {
-    match v {
-        Value::Null => false,
-        Value::Array(a) => a.iter().all(all_finite),
-        Value::Object(o) => o.iter().all(|(k, x)| (k == "speed_set" || k == "osm_id" || k == "district_id" || k == "Lat" || k == "Lon") && x.is_null() || all_finite(x)),
-        _ => true,
-    }
+fn net_all_finite(n: &[Link]) -> bool {
+    let sl = |s: &SpeedSet| {
+        s.speed_limits.iter().all(|q| q.offset_start.value.is_finite() && q.offset_end.value.is_finite() && q.speed.value.is_finite())
+            && s.speed_params.iter().all(|p| p.limit_val.is_finite())
+    };
+    n.iter().all(|l| {
+        l.length.value.is_finite()
+            && l.elevs.iter().all(|e| e.offset.value.is_finite() && e.elev.value.is_finite())
+            && l.headings.iter().all(|h| {
+                h.offset.value.is_finite() && h.heading.value.is_finite() && h.lat.map(|x| x.is_finite()).unwrap_or(true) && h.lon.map(|x| x.is_finite()).unwrap_or(true)
+            })
+            && l.speed_sets.values().all(sl)
+            && l.speed_set.as_ref().map(sl).unwrap_or(true)
+            && l.cat_power_limits.iter().all(|c| c.offset_start.value.is_finite() && c.offset_end.value.is_finite() && c.power_limit.value.is_finite())
+    })
+}
+
+/// token strings equal up to one unit in the last place per number (serde_json's default float
+/// parser is not correctly rounded; that is property C17's subject, not this one's)
+fn close_1ulp(a: &str, b: &str) -> bool {
+    let (ta, tb): (Vec<&str>, Vec<&str>) = (a.split(' ').collect(), b.split(' ').collect());
+    ta.len() == tb.len()
+        && ta.iter().zip(tb.iter()).all(|(x, y)| {
+            x == y
+                || (x.starts_with('x') && y.starts_with('x') && {
+                    match (u64::from_str_radix(&x[1..], 16), u64::from_str_radix(&y[1..], 16)) {
+                        (Ok(p), Ok(q)) => p.abs_diff(q) <= 1,
+                        _ => false,
+                    }
+                })
+        })
 }
 
 struct Seen {
     direct: &'static str,
+    /// the JSON text of this network parses back to exactly this network
+    json_faithful: bool,
 }
 
 fn run_case(ctx: &mut Ctx, name: &str, expect: Option<bool>, net: &[Link], at: usize, serde_paths: bool, files: bool, tag: &str) -> Seen {
@@ -995,8 +1021,9 @@ fn run_case(ctx: &mut Ctx, name: &str, expect: Option<bool>, net: &[Link], at: u
         }
     }
     if !serde_paths {
-        return Seen { direct: vd };
+        return Seen { direct: vd, json_faithful: false };
     }
+    let mut json_faithful = false;
 
     // ---- Network wrapper and the string round trips
     let nw = Network(netv.clone());
@@ -1033,6 +1060,9 @@ fn run_case(ctx: &mut Ctx, name: &str, expect: Option<bool>, net: &[Link], at: u
             ctx.fail(P, "never_panics", &id, format!("Network::from_{} panicked (mutation {})", fmt, name), input.clone());
         }
         if same {
+            if fmt == "json" {
+                json_faithful = true;
+            }
             ctx.count(&format!("net.{}.roundtrip_same", fmt));
             ctx.checked(P, "paths_agree");
             if vl != vd {
@@ -1044,10 +1074,14 @@ fn run_case(ctx: &mut Ctx, name: &str, expect: Option<bool>, net: &[Link], at: u
                 }
             }
         } else {
-            // JSON has no NaN/inf (serde_json writes null): the text does not denote the network
-            ctx.count(&format!("net.{}.text_not_faithful", fmt));
-            let fin = all_finite(&serde_json::to_value(&netv).unwrap_or(Value::Null));
-            if fin {
+            // JSON has no NaN/inf (serde_json writes null), and serde_json's float parser may be off
+            // by one ulp: in both cases the text does not denote the network
+            let drift = parsed.as_ref().map(|p| close_1ulp(&tok_net(&p.0, true), &canon)).unwrap_or(false);
+            if drift {
+                ctx.count(&format!("net.{}.float_parse_drift", fmt));
+            } else if !net_all_finite(net) {
+                ctx.count(&format!("net.{}.non_finite_not_representable", fmt));
+            } else {
                 ctx.checked(P, "paths_agree");
                 ctx.fail(P, "paths_agree", &id, format!("{} text of an all-finite network does not parse back to it (mutation {})", fmt, name), input.clone());
             }
@@ -1066,7 +1100,7 @@ fn run_case(ctx: &mut Ctx, name: &str, expect: Option<bool>, net: &[Link], at: u
             }
         }
     }
-    Seen { direct: vd }
+    Seen { direct: vd, json_faithful }
 }
 
 /// the legacy layout of `net` (every link must have `speed_set == None`)
@@ -1099,7 +1133,8 @@ fn to_legacy(r: &mut Rng, net: &[Link], shadow: bool) -> Vec<Legacy> {
         .collect()
 }
 
-fn legacy_case(ctx: &mut Ctx, r: &mut Rng, name: &str, net: &[Link], direct: &str, files: bool, emit_links: bool, tag: &str) {
+fn legacy_case(ctx: &mut Ctx, r: &mut Rng, name: &str, net: &[Link], seen: &Seen, files: bool, emit_links: bool, tag: &str) {
+    let direct = seen.direct;
     if net.iter().any(|l| l.speed_set.is_some()) {
         ctx.count("net.legacy.not_expressible");
         return;
@@ -1110,7 +1145,7 @@ fn legacy_case(ctx: &mut Ctx, r: &mut Rng, name: &str, net: &[Link], direct: &st
     let val = Value::Array(leg.iter().map(legacy_value).collect());
     let canon = tok_net(net, true);
     let input = json!({"case": tag, "mutation": name, "legacy_json": val.clone(), "network_tokens": tok_net(net, false)});
-    let finite = all_finite(&val);
+    let finite = seen.json_faithful;
     let text = if finite { serde_json::to_string(&val).unwrap() } else { legacy_yaml(&leg) };
     let fmt = if finite { "json" } else { "yaml" };
     let old = guard(|| if finite { NetworkOld::from_json(&text) } else { NetworkOld::from_yaml(&text) });
@@ -1127,11 +1162,41 @@ fn legacy_case(ctx: &mut Ctx, r: &mut Rng, name: &str, net: &[Link], direct: &st
         }
         Some(Ok(o)) => o,
     };
+    // what was parsed, tokenised from the crate's own legacy objects (field order of link_old.rs)
+    let old_toks: Vec<String> = old
+        .0
+        .iter()
+        .map(|k| {
+            format!(
+                "{} {} {} {} {} {} {} {} {} {} {} {} {}",
+                seq(&k.elevs, tok_elev),
+                seq(&k.headings, tok_heading),
+                seq(&k.speed_sets, tok_old_set),
+                seq(&k.cat_power_limits, tok_cat),
+                fb(k.length.value),
+                k.idx_next.idx(),
+                k.idx_next_alt.idx(),
+                k.idx_prev.idx(),
+                k.idx_prev_alt.idx(),
+                k.idx_curr.idx(),
+                k.idx_flip.idx(),
+                opt(&k.osm_id, |s| st(s)),
+                seq(&k.link_idxs_lockout, |i| i.idx().to_string()),
+            )
+        })
+        .collect();
+    let mine: Vec<String> = leg.iter().map(tok_legacy).collect();
+    if old_toks != mine {
+        // the text did not denote the legacy network the harness built
+        ctx.checked(P, "legacy_same_network");
+        ctx.fail(P, "legacy_same_network", "legacy", format!("legacy {} text parses to something else than was written (mutation {}): {}", fmt, name, first_diff(&old_toks.join(" "), &mine.join(" "))), input.clone());
+        return;
+    }
     // per-link conversion against the model
     let conv: Vec<Link> = old.0.iter().map(|l| Link::from(l.clone())).collect();
     if emit_links {
-        for (i, l) in leg.iter().enumerate() {
-            ctx.op(P, "from_old_link", &tok_legacy(l), &format!("ok {}", tok_link(&conv[i], true)));
+        for (i, l) in old_toks.iter().enumerate() {
+            ctx.op(P, "from_old_link", l, &format!("ok {}", tok_link(&conv[i], true)));
         }
     }
     let new: Network = old.into();
@@ -1142,7 +1207,7 @@ fn legacy_case(ctx: &mut Ctx, r: &mut Rng, name: &str, net: &[Link], direct: &st
         ctx.fail(P, "legacy_same_network", "legacy", format!("legacy layout converts to a different network (mutation {}): {}", name, first_diff(&got, &canon)), input.clone());
     }
     let vn = verdict(&guard(|| new.validate()));
-    let id = ctx.op(P, "validate_old_net", &seq(&leg, tok_legacy), vn);
+    let id = ctx.op(P, "validate_old_net", &seq(&old_toks, |t| t.clone()), vn);
     ctx.checked(P, "legacy_same_verdict");
     if vn != direct {
         ctx.fail(P, "legacy_same_verdict", &id, format!("legacy layout verdict {} vs current layout {} (mutation {})", vn, direct, name), input.clone());
@@ -1380,22 +1445,36 @@ pub fn run(ctx: &mut Ctx, r: &mut Rng, tier: &str) {
         let mut muts: Vec<Mutant> = vec![];
         net_mutants(&base, &mut muts);
         // every link on small networks, a sample on the large ones
-        let ks: Vec<usize> = if base.len() <= 16 { (1..base.len()).collect() } else { (0..8).map(|_| rr.usize(1, base.len() - 1)).collect() };
+        let cap = if thorough { 16 } else { 4 };
+        let ks: Vec<usize> = if base.len() - 1 <= cap {
+            (1..base.len()).collect()
+        } else {
+            // links with alternates first, then random ones
+            let mut ks: Vec<usize> = (1..base.len()).filter(|k| base[*k].idx_next_alt.idx() != 0 || base[*k].idx_prev_alt.idx() != 0).take(2).collect();
+            while ks.len() < cap {
+                let k = rr.usize(1, base.len() - 1);
+                if !ks.contains(&k) {
+                    ks.push(k);
+                }
+            }
+            ks
+        };
+        ctx.count_n("net.links_fully_mutated", ks.len() as u64);
         for k in ks {
             link_mutants(&base, k, &mut rr, &mut muts);
         }
         let nm = muts.len();
         for (mi, mu) in muts.iter().enumerate() {
             // string round trips for every case of the small plans, every 3rd otherwise; files every 5th
-            let serde_paths = base.len() <= 16 || mi % 3 == 0;
+            let serde_paths = thorough || mi % 2 == 0 || mu.name == "unchanged";
             let files = mi % 5 == 0 || mu.name == "unchanged";
             let seen = run_case(ctx, &mu.name, mu.expect, &mu.net, mu.at, serde_paths, files, &tag);
-            if g.all_map && (mi % 2 == 0 || mu.name == "unchanged") {
-                legacy_case(ctx, &mut rr, &mu.name, &mu.net, seen.direct, files, mu.name == "unchanged" || mi % 16 == 0, &tag);
+            if g.all_map && serde_paths && (mi % 4 == 0 || mu.name == "unchanged") {
+                legacy_case(ctx, &mut rr, &mu.name, &mu.net, &seen, files, mu.name == "unchanged" || mi % 16 == 0, &tag);
             }
         }
         // pairs of mutations (the second applied on top of the first where the shapes allow it)
-        let npairs = if thorough { 150 } else { 40 };
+        let npairs = if thorough { 150 } else { 30 };
         for _ in 0..npairs {
             let a = &muts[rr.usize(0, nm - 1)];
             let b = &muts[rr.usize(0, nm - 1)];
@@ -1417,7 +1496,7 @@ pub fn run(ctx: &mut Ctx, r: &mut Rng, tier: &str) {
             ctx.count("net.pairs");
             let seen = run_case(ctx, "pair", expect, &net, 0, true, false, &format!("{} {}", tag, name));
             if g.all_map {
-                legacy_case(ctx, &mut rr, "pair", &net, seen.direct, false, false, &tag);
+                legacy_case(ctx, &mut rr, "pair", &net, &seen, false, false, &tag);
             }
         }
     }
@@ -1428,7 +1507,7 @@ pub fn run(ctx: &mut Ctx, r: &mut Rng, tier: &str) {
         let g = GenOpts { family: "scissors", n: 5, flips, all_map: true, lockouts: false, grid: 1.0 };
         let net = build(&mut rr, &g);
         let seen = run_case(ctx, "coincident_switch_points", Some(false), &net, 0, true, true, "scissors");
-        legacy_case(ctx, &mut rr, "coincident_switch_points", &net, seen.direct, true, true, "scissors");
+        legacy_case(ctx, &mut rr, "coincident_switch_points", &net, &seen, true, true, "scissors");
         // and the same network with the merging edge removed is consistent
         let mut ok = net.clone();
         ok[3].idx_prev_alt = li(0);
@@ -1459,7 +1538,7 @@ pub fn run(ctx: &mut Ctx, r: &mut Rng, tier: &str) {
         let net = gen_line(&mut rr, &o);
         ctx.count("net.family.netgen_line");
         let seen = run_case(ctx, "unchanged", Some(true), &net, 0, true, true, "netgen_line");
-        legacy_case(ctx, &mut rr, "unchanged", &net, seen.direct, true, false, "netgen_line");
+        legacy_case(ctx, &mut rr, "unchanged", &net, &seen, true, false, "netgen_line");
     }
 
     let nf = if thorough { 40000 } else { 3000 };
